@@ -218,6 +218,12 @@ pub struct Stats {
     pub samples: Vec<Value>,
     /// run index -> digest of the full event log (determinism self-check)
     pub digests: BTreeMap<u64, u64>,
+    /// run index -> digest of the outcomes only (results, files, statuses)
+    #[serde(default)]
+    pub outcome_digests: BTreeMap<u64, u64>,
+    /// oddities that are reported but do not fail the check (see driver)
+    #[serde(default)]
+    pub warnings: Vec<String>,
     pub first_seed: Option<u64>,
     pub last_seed: Option<u64>,
     pub harness_errors: Vec<String>,
@@ -266,6 +272,12 @@ impl Stats {
             }
         }
         self.digests.extend(o.digests);
+        self.outcome_digests.extend(o.outcome_digests);
+        for w in o.warnings {
+            if self.warnings.len() < 20 {
+                self.warnings.push(w);
+            }
+        }
         self.first_seed = match (self.first_seed, o.first_seed) {
             (Some(a), Some(b)) => Some(a.min(b)),
             (a, b) => a.or(b),
